@@ -104,6 +104,10 @@ Fixpoint fix_split (prev_wide : bool) (r : list cell) : list cell :=
       else c :: fix_split false r'
   end.
 
+(* the cells a printed character of width w occupies (0: none; 2: left half + continuation) *)
+Definition char_cells (cp w cs : Z) (a : vattr) : list cell :=
+  if w =? 0 then [] else mkCell cp w cs a :: (if w =? 2 then [mkCell (-1) 0 cs a] else []).
+
 Definition cur_cs (t : term) : Z :=
   if t_ibm t then 2 else if t_so t && t_g1 t then 1 else 0.
 
